@@ -490,6 +490,10 @@ impl MasterSession {
         }
 
         if response.header.iin.has_bad_request_error() {
+            // the indications of a response that rejects the request count like any other
+            if let Ok(association) = self.associations.get_mut(destination.link) {
+                association.process_iin(response.header.iin);
+            }
             return Err(TaskError::RejectedByIin2(response.header.iin));
         }
 
@@ -635,6 +639,10 @@ impl MasterSession {
         }
 
         if response.header.iin.has_bad_request_error() {
+            // the indications of a response that rejects the request count like any other
+            if let Ok(association) = self.associations.get_mut(destination.link) {
+                association.process_iin(response.header.iin);
+            }
             return Err(TaskError::RejectedByIin2(response.header.iin));
         }
 
